@@ -303,6 +303,7 @@ struct Stats {
     evals: u64,
     sched_cases: u64,
     long_logs: u64,
+    second_passes: u64,
     diff_cases: u64,
     ref_cases: u64,
     decode_cases: u64,
@@ -361,9 +362,33 @@ fn schedule_case(ctx: &Ctx, rng: &mut Rng, id: u64, st: &mut Stats) {
     }
     let kind = rng.below(8);
     let part = gen_partition(rng, kind, stereo, total);
-    let mut p = Player::<Rec>::new(t.vtx(), rate, stereo);
+    let mut vt = t.vtx();
+    let loop_start = if nf > 0 { rng.below(nf.min(65_536) as u64) as usize } else { 0 };
+    vt.loop_start_frame = loop_start as u16;
+    let mut p = Player::<Rec>::new(vt, rate, stereo);
     let out = drive::<Rec, f64>(&mut p, &part, stereo, total * ch);
     let got: Vec<(u64, u8, u8)> = REC_LOG.with(|l| l.borrow().clone());
+    // a second pass after the end was reported: rewind / rewind_loop / set_frame restart the schedule
+    // at frame k (the player resets the envelope shape first), again (frames-k)*spf samples long
+    let second = if nf > 0 && nf < 5000 && !out.overrun && out.stream.len() == total * ch {
+        let (op, k) = match rng.below(3) {
+            0 => ("rewind", 0usize),
+            1 => ("rewind_loop", loop_start),
+            _ => ("set_frame", rng.below(nf as u64) as usize),
+        };
+        match op {
+            "rewind" => p.rewind(),
+            "rewind_loop" => p.rewind_loop(),
+            _ => {
+                let _ = p.set_frame(k);
+            }
+        }
+        let out2 = drive::<Rec, f64>(&mut p, &part, stereo, (nf - k) * spf * ch);
+        let log2: Vec<(u64, u8, u8)> = REC_LOG.with(|l| l.borrow()[got.len()..].to_vec());
+        Some((op, k, out2, log2))
+    } else {
+        None
+    };
     st.evals += 1;
     st.sched_cases += 1;
     if nf >= 65_535 {
@@ -433,6 +458,32 @@ fn schedule_case(ctx: &Ctx, rng: &mut Rng, id: u64, st: &mut Stats) {
             o.push(("want_sample_reg_val".into(), w.map(|x| J::Arr(vec![J::from(x.0), J::from(x.1), J::from(x.2)])).unwrap_or(J::Null)));
         }
         ctx.violation(key, "register writes do not happen at sample k*floor(rate/pf) in register order with R13=0xFF skipped", j);
+    }
+    if let Some((op, k, out2, log2)) = second {
+        st.second_passes += 1;
+        let exp = (nf - k) * spf * ch;
+        let mut want2: Vec<(u64, u8, u8)> = vec![(total as u64, 13, 0)];
+        for (j, f) in t.frames.iter().enumerate().skip(k) {
+            for r in 0..14u8 {
+                if r == 13 && f[13] == 0xFF {
+                    continue;
+                }
+                want2.push(((total + (j - k) * spf) as u64, r, f[r as usize]));
+            }
+        }
+        if out2.stream.len() != exp {
+            let mut w = wit("second pass");
+            w.set("restart", J::from(format!("{} -> frame {}", op, k)));
+            ctx.violation("second-pass:total-sample-count", &format!("after the end was reported, {}() restarts at frame {} of {}: play() delivered {} values, (frames-k)*floor(rate/pf)*channels = {}", op, k, nf, out2.stream.len(), exp), w);
+        } else if log2 != want2 {
+            let idx = log2.iter().zip(want2.iter()).position(|(a, b)| a != b).unwrap_or(log2.len().min(want2.len()));
+            let mut w = wit("second pass");
+            w.set("restart", J::from(format!("{} -> frame {}", op, k)));
+            w.set("first_difference_index", J::from(idx as u64));
+            w.set("got", J::from(format!("{:?}", log2.get(idx))));
+            w.set("want", J::from(format!("{:?}", want2.get(idx))));
+            ctx.violation("second-pass:register-writes", &format!("after {}() the register writes do not follow the schedule from frame {} on", op, k), w);
+        }
     }
     let mut h = FNV_INIT;
     fnv1a(&mut h, &[stereo as u8, kind as u8, (nf.min(255)) as u8, (spf.min(255)) as u8, (nf == 0) as u8]);
@@ -729,6 +780,7 @@ pub fn run(ctx: &Ctx) -> Evidence {
         tot.evals += r.evals;
         tot.sched_cases += r.sched_cases;
         tot.long_logs += r.long_logs;
+        tot.second_passes += r.second_passes;
         tot.diff_cases += r.diff_cases;
         tot.ref_cases += r.ref_cases;
         tot.decode_cases += r.decode_cases;
@@ -746,6 +798,7 @@ pub fn run(ctx: &Ctx) -> Evidence {
     ev.distinct_nontrivial = tot.distinct.len() as u64;
     ev.add_num("schedule_cases", tot.sched_cases);
     ev.add_num("schedule_cases_with_65535_or_more_frames", tot.long_logs);
+    ev.add_num("second_passes_after_rewind_or_set_frame", tot.second_passes);
     ev.add_num("register_writes_checked", tot.events);
     ev.add_num("r13_ff_frames", tot.r13_skips);
     ev.add_num("odd_length_stereo_calls", tot.odd_stereo_calls);
